@@ -123,7 +123,7 @@ PROPS_EXTRA = {
     'C06': ['Props.EffectFacts', 'Props.CodecFacts', 'Props.GenHeads', 'Props.GenJoin', 'Props.GenJoinTail'],
     'C07': ['Props.CodecFacts'],
     'C08': ['Props.CodecFacts', 'Props.GenMisc'],
-    'C09': ['Props.GenFetcher', 'Props.GenHeads', 'Props.GenLoaders'],
+    'C09': ['Props.GenFetcher', 'Props.GenHeads', 'Props.GenLoaders', 'Props.GenNewLog'],
     'C10': ['Props.GenFetcher', 'Props.GenLoaders'],
     'C11': ['Props.GenFetcher'],
     'C12': ['Props.CodecFacts', 'Props.GenFetcher'],
